@@ -315,6 +315,30 @@ def commit (s : State) (recs : List Rec) : State × Outcome Unit :=
       let (s2, panicked) := buildIdxes s1 recs
       if panicked then (s2, .panic) else (s2, .ok ())
 
+/-! ### Commit with an injected write error
+
+`failAt = some i`: the `WriteAt` of the record with index `i` returns an error before anything reaches
+the file (the FS hook of the harness vetoes the write). The loop returns at once: the rotation that
+preceded the write has happened, the offsets have not advanced, records `0 … i-1` stay written and —
+KV records — indexed. -/
+
+def commitLoopF (s : State) (recs : List Rec) (failAt : Option Nat) : State × Bool :=
+  match recs with
+  | [] => (s, true)
+  | r :: rest =>
+    if r.size > s.opt.seg then (s, false)
+    else if failAt == some 0 then (preRotate s r, false)
+    else commitLoopF (writeRec s r rest.isEmpty) rest (failAt.map (· - 1))
+
+def commitF (s : State) (recs : List Rec) (failAt : Option Nat) : State × Outcome Unit :=
+  if recs.isEmpty then (s, .ok ())
+  else
+    let (s1, fine) := commitLoopF s recs failAt
+    if !fine then (s1, .err)
+    else
+      let (s2, panicked) := buildIdxes s1 recs
+      if panicked then (s2, .panic) else (s2, .ok ())
+
 /-! ### Open (recovery) -/
 
 def allRecs (fs : List File) : List (Rec × Nat × Nat) :=
